@@ -256,6 +256,16 @@ func (b *Backend) SetDown(down bool) {
 		for c := range b.conns {
 			c.Close()
 		}
+		// "down" means refusing from now on: do not return before a fresh dial really is refused (a connection
+		// the kernel completed just before the close would otherwise still look like a live backend)
+		for i := 0; i < 100; i++ {
+			c, err := net.DialTimeout("tcp", b.addr, 200*time.Millisecond)
+			if err != nil {
+				break
+			}
+			c.Close()
+			time.Sleep(2 * time.Millisecond)
+		}
 		return
 	}
 	for i := 0; i < 200; i++ {
